@@ -19,7 +19,9 @@ RULE = (
     "successors untouched. Contexts: for every accepted R-AVM execution whose depth-0 block sequence starts "
     "with the path, the admission predicates of C06-C09 hold at every block of its trace. Independence: the "
     "contexts of the function are identical whether it is built alone, before or after another function, or "
-    "twice. Non-interference: a structural snapshot of the contract's own graph is unchanged. Exactness (direct-"
+    "twice. Non-interference: a structural snapshot of the contract's own graph is unchanged. Configuration: 2-3 dispatch paths (preferably ending in the same block by different "
+    "routes) listed as functions of one contract in a group configuration file: each function's graph and "
+    "contexts equal those of the function built alone from a fresh parse. Exactness (direct-"
     "check programs): GroupSize sets of the function lie between the context-sensitive and context-insensitive "
     "literal reading of the contract with the off-path edges removed. Non-trivial = "
     "path length >= 2 and the function shares a subroutine with the other function built; distinct by "
@@ -278,6 +280,98 @@ def exact_case(draw, disabled=()):
     return p
 
 
+# ------------------------------------------------------------------ functions listed in a group configuration
+@st.composite
+def config_case(draw, disabled=()):
+    """program + 2-3 dispatch paths listed as functions of one contract in a group configuration; paths that
+    end in the same block by different routes (a diamond in the dispatcher) are preferred"""
+    p = draw(semantic_program(profile="modelled", disabled=disabled, max_stmts=10))
+    p = {k: p[k] for k in ("version", "items", "mode", "features", "structured")}
+    g = RCFG(p)
+    paths = main_paths(g)
+    by_last = {}
+    for x in paths:
+        by_last.setdefault(x[-1], []).append(x)
+    same_end = [v for v in by_last.values() if len(v) >= 2]
+    chosen = []
+    if same_end and draw(st.integers(0, 3)):
+        grp = draw(st.sampled_from(same_end))
+        chosen = draw(st.lists(st.sampled_from(grp), min_size=2, max_size=2, unique_by=tuple))
+        p["features"] = sorted(set(p["features"]) | {"paths_with_same_last_block"})
+    n = draw(st.integers(2, 3))
+    while len(chosen) < n:
+        chosen.append(draw(st.sampled_from(paths)))
+    p["paths"] = draw(st.permutations(chosen))
+    return p
+
+
+def fn_structure(fn):
+    out = []
+    for b in fn.blocks:
+        if len(b.instructions) == 1 and type(b.instructions[0]).__name__ == "TealerCustomErrInstruction":
+            continue
+        nxt = ["ERR" if (len(x.instructions) == 1 and type(x.instructions[0]).__name__ == "TealerCustomErrInstruction") else x.idx for x in b.next]
+        out.append((b.idx, b.entry_instr.line, [str(i) for i in b.instructions], nxt))
+    return sorted(out)
+
+
+def check_config(case, no_loop_paths=False):
+    import os
+    import shutil
+    import tempfile
+    from pathlib import Path
+
+    import yaml
+    from tealer.utils.command_line.common import init_tealer_from_config
+    from tealer.utils.command_line.group_config import read_config_from_file
+    from vf import env as vfenv
+
+    g = RCFG(case)
+    paths = [list(x) for x in case["paths"]]
+    teal0 = adapter.parse(g.text)
+    idx_of = {b.entry_instr.line: b.idx for b in teal0.bbs}
+    ipaths = [[idx_of[l] for l in x] for x in paths]
+    d = tempfile.mkdtemp(prefix="c12", dir=vfenv.OUT_ROOT)
+    try:
+        with open(os.path.join(d, "c.teal"), "w", encoding="utf-8") as f:
+            f.write(g.text)
+        app = case["mode"] == "app"
+        functions = [{"name": f"f{k}", "dispatch_path": [f"B{i}" for i in ip]} for k, ip in enumerate(ipaths)]
+        txn = {"txn_id": "T0", "txn_type": "appl" if app else "pay"}
+        txn["application" if app else "logic_sig"] = {"contract": "c", "function": "f0"}
+        cfg = {"name": "G", "contracts": [{"name": "c", "file_path": "c.teal", "type": "ApprovalProgram" if app else "LogicSig",
+                                           "version": case["version"], "subroutines": [], "functions": functions}],
+               "groups": [{"operation": "op", "transactions": [txn]}]}
+        text = yaml.safe_dump(cfg, sort_keys=False)
+        with open(os.path.join(d, "config.yaml"), "w", encoding="utf-8") as f:
+            f.write(text)
+        with adapter.captured():
+            try:
+                tl = init_tealer_from_config(read_config_from_file(Path(os.path.join(d, "config.yaml"))))
+            except BaseException as e:  # pylint: disable=broad-except
+                raise Violation("config-init-crash", f"{type(e).__name__}: {e}\n{text}\n{g.text}")
+            finally:
+                adapter.clear_caches()
+    finally:
+        shutil.rmtree(d, ignore_errors=True)
+    teal = tl.contracts["c"]
+    if sorted(teal.functions) != sorted(f["name"] for f in functions):
+        raise Violation("config-functions", f"functions {sorted(teal.functions)} for configuration\n{text}")
+    same_end = len({tuple(x) for x in paths}) > len({x[-1] for x in paths})
+    for k, ip in enumerate(ipaths):
+        fn = teal.functions[f"f{k}"]
+        alone = build(adapter.parse(g.text), ip, f"f{k}")
+        if fn_structure(fn) != fn_structure(alone):
+            raise Violation("config-function-graph", f"function f{k} (path {paths[k]}, ids {ip}) listed with {ipaths}: its graph differs from the function built alone\n{g.text}")
+        c1 = {str(a): b for a, b in fn_contexts(fn).items()}
+        c2 = {str(a): b for a, b in fn_contexts(alone).items()}
+        if c1 != c2:
+            diff = [a for a in c1 if c1.get(a) != c2.get(a)][:3]
+            raise Violation("config-function-contexts", f"function f{k} (path {paths[k]}, ids {ip}) listed with {ipaths}: contexts differ from the function built alone at blocks {diff}\n{g.text}")
+    return {"nontrivial": same_end, "key": case_hash([g.text, paths]), "features": list(case.get("features", [])) + [f"functions{len(paths)}"],
+            "counters": {"functions_compared": len(paths)}}
+
+
 def components(tier, disabled):
     q = tier == "quick"
     nl = "dispatch_path_through_loop" in disabled
@@ -286,4 +380,6 @@ def components(tier, disabled):
                      "sample": lambda c, i: {"path": c["path"], "order": c["order"], "source": RCFG(c).text}},
         "exact": {"strategy": exact_case(disabled), "check": check_exact, "examples": 700 if q else 40000,
                   "sample": lambda c, i: {"path": c["path"], "source": RCFG(c).text}},
+        "config": {"strategy": config_case(disabled), "check": check_config, "examples": 500 if q else 20000,
+                   "sample": lambda c, i: {"paths": [list(x) for x in c["paths"]], "source": RCFG(c).text}},
     }
